@@ -32,6 +32,24 @@ from dataclasses import dataclass, field
 
 from harness import vloop
 
+
+def _give_multiprocessing_the_real_clock() -> None:
+    """Local workaround (reported to the framework owner): vloop freezes `time.monotonic`; the stdlib's
+    `multiprocessing.connection.wait(timeout=0)` then never times out and `Pool.terminate()` hangs.  The
+    multiprocessing modules get a private `time` namespace with the real clock; nothing else is touched."""
+    import multiprocessing.connection as _c
+    import multiprocessing.pool as _p
+    import time as _t
+    import types
+
+    real = types.SimpleNamespace(monotonic=vloop.real_monotonic, sleep=vloop._REAL_SLEEP, time=_t.time)
+    for mod in (_c, _p):
+        if getattr(mod, "time", None) is _t:
+            mod.time = real
+
+
+_give_multiprocessing_the_real_clock()
+
 REC_MERGES = ["rep", "sum", "cat", "first", "boom"]
 VIEW_MERGES = ["rep", "sum", "cat", "first", "skipnew"]
 LEVELS = {"d": "DEBUG", "i": "INFO", "w": "WARNING", "e": "ERROR"}
@@ -336,6 +354,65 @@ def normalize(case: str) -> str | None:
 
 
 # ------------------------------------------------------------------------------------------------
+# random event sequences
+
+KINDS = ["s", "a"]
+CBS = ["s", "a", "s", "a", "n"]
+
+
+def sample_events(rng, max_scopes: int, degenerate: bool = False, extra=None, open_tok=None,
+                  max_tasks: int = 4, max_steps: int = 60, tick_w: float = 0.6) -> str | None:
+    """One random valid event sequence (drained).  At each step an enabled event is drawn with weights biased
+    towards building a tree first and towards leaving parents early.  `extra(rng, replay, t)` may add
+    component specific events for task t (records, log calls) as (weight, token) pairs; `open_tok(rng, t, held)`
+    overrides the scope-construction token."""
+    r = Replay()
+    toks: list[str] = []
+    nsc = 0
+    mk = open_tok or (lambda rng, t, held: f"{t}:{'m' if held else 'o'}:{rng.choice(KINDS)}:{rng.choice(CBS)}")
+    for _ in range(max_steps):
+        opts: list[tuple[float, str]] = []
+        live = [t for t, tk in enumerate(r.tasks) if tk.alive and not tk.blocked]
+        if not live:
+            break
+        for t in live:
+            tk = r.tasks[t]
+            if nsc < max_scopes:
+                opts.append((3.0, mk(rng, t, False)))
+                if degenerate:
+                    opts.append((1.2, mk(rng, t, True)))
+            if tk.pending is not None:
+                opts.append((1.5, f"{t}:n"))
+            if tk.frames:
+                sid = tk.frames[-1]
+                opts.append((2.0, f"{t}:x"))
+                if not (r.scopes[sid].is_async and r.live_members(sid)):
+                    opts.append((0.5, f"{t}:X"))
+            else:
+                opts.append((0.8 if nsc < max_scopes else 3.0, f"{t}:e"))
+            if len(r.tasks) < max_tasks and r.cur(t) is not None:
+                g = r.group(t)
+                if g is None or r.scopes[g].ev_left is None:
+                    opts.append((1.0, f"{t}:s"))
+                opts.append((1.4, f"{t}:c"))
+            if extra is not None:
+                opts.extend(extra(rng, r, t))
+        if tick_w:
+            opts.append((tick_w, f"+{rng.randint(1, 3)}"))
+        tok = rng.choices([o[1] for o in opts], weights=[o[0] for o in opts])[0]
+        ev = parse_tok(tok)
+        r.step(ev)
+        if not r.ok:
+            break
+        toks.append(tok)
+        if ev.kind in ("open", "make"):
+            nsc += 1
+        if nsc >= max_scopes and rng.random() < 0.05:
+            break
+    return normalize(" ".join(toks))
+
+
+# ------------------------------------------------------------------------------------------------
 # the real code
 
 class Boom(Exception):
@@ -411,9 +488,10 @@ class Capture(logging.Handler):
     """Collects records while armed; a record whose message cannot be produced is *lost* the way the standard
     handlers lose it: through `handleError`."""
 
-    def __init__(self, run):
+    def __init__(self, run, origin: str):
         super().__init__(level=logging.DEBUG)
         self.run = run
+        self.origin = origin
 
     def emit(self, record):
         if not self.run.armed:
@@ -423,10 +501,10 @@ class Capture(logging.Handler):
         except Exception:
             self.handleError(record)
             return
-        self.run.captured.append((record.name, record.levelname, record.exc_info, text))
+        self.run.captured.append((self.origin, record.name, record.levelname, record.exc_info, text))
 
     def handleError(self, record):
-        self.run.captured.append((record.name, record.levelname, record.exc_info, None))
+        self.run.captured.append((self.origin, record.name, record.levelname, record.exc_info, None))
 
 
 class Run:
@@ -455,7 +533,7 @@ class Run:
     def logger(self, k: int) -> logging.Logger:
         if k not in self.loggers:
             lg = logging.Logger(f"L{k}", level=logging.DEBUG)       # stand-alone: no parent, no propagation
-            lg.addHandler(Capture(self))
+            lg.addHandler(Capture(self, f"L{k}"))
             self.loggers[k] = lg
         return self.loggers[k]
 
@@ -597,10 +675,13 @@ class Puppet:
                     run.note(f"log-raised:{type(exc).__name__}")
                 finally:
                     run.armed = False
-                run.logs[run.k] = [
-                    (name, lv, (ei is not None and ei[1] is exc_obj) if exc_obj is not None else ei is not None and ei[0] is not None, text)
-                    for (name, lv, ei, text) in run.captured
-                ]
+                def exc_flag(ei):
+                    has = ei is not None and ei[0] is not None
+                    if exc_obj is None:
+                        return "X" if has else "0"
+                    return "1" if has and ei[1] is exc_obj else "0"
+
+                run.logs[run.k] = [(origin, name, lv, exc_flag(ei), text) for (origin, name, lv, ei, text) in run.captured]
             elif k == "spawn":
                 child = Puppet(run, len(run.puppets))
                 run.puppets.append(child)
@@ -617,9 +698,12 @@ def run_case(case: str):
         return None
     vm, evs, _ = p
     run = Run(vm, evs)
+    # every case starts at the same integer instant: the shared virtual clock may have picked up fractions from
+    # `time.sleep` calls of the standard library (subprocess wait loops) in this process or its parent
+    vloop.CLOCK.now = 1000.0
     loop = vloop.new_loop()
     root = logging.getLogger()
-    cap = Capture(run)
+    cap = Capture(run, "root")
     old_level, old_raise, old_hook = root.level, logging.raiseExceptions, sys.unraisablehook
     root.addHandler(cap)
     root.setLevel(logging.DEBUG)
@@ -644,7 +728,6 @@ def run_case(case: str):
                 break
             pup.waiting.set_result(ev)
             loop.quiesce()
-        names = {ev.name for ev in evs if ev.kind in ("open", "make")}
         return run
     finally:
         root.removeHandler(cap)
